@@ -56,11 +56,19 @@ inductive OpPortType where
   | other
   deriving Repr, DecidableEq
 
+/-- what `Interface.add_method` does with the namespace of a declared fault class -/
+inductive FaultNs where
+  | forcedTns      -- `fault.__namespace__ = self.get_tns()`: the fault (and its wsdl:message) is in the tns (good)
+  | keptDeclared   -- an explicit `__namespace__` survives: `wsdl:fault/@message` points outside the tns
+  | other
+  deriving Repr, DecidableEq
+
 structure Facts07 where
   importsIter : ImportsIter
   tierTies : TierTies
   headerMsgNs : HeaderMsgNs
   opPortType : OpPortType
+  faultNs : FaultNs
   /-- `spyne.const.xml.NSMAP` has no prefix of the form `s<digits>` and none called `tns` -/
   staticPrefixesClean : Bool
   deriving Repr
@@ -711,6 +719,22 @@ def gen (F : Facts07) (e : Enum) (I : IState) (url : String) : Outcome Doc :=
     let p2 := touchAll p1 ((messagesOf I).2 ++ pt.trace ++ (bindingsOf F I).trace)
     .ok ⟨p1.nsmap, p2.prefmap, I.tns, I.name, schemas, (messagesOf I).1, pt.services, pt.portTypes, (bindingsOf F I).bindings⟩
 
+/-- classes declared as a fault of some method -/
+def IState.faultIds (I : IState) : List Nat := (allMethods I).flatMap (·.faults)
+
+/-- the step of `Interface.add_method` that concerns the rendering: `fault.__namespace__ = self.get_tns()` for
+    every declared fault (applying it to an interface that went through it already changes nothing) -/
+def IState.addMethodFaults (F : Facts07) (I : IState) : IState :=
+  match F.faultNs with
+  | .forcedTns =>
+    { I with classes := (List.range I.classes.length).map fun i =>
+        if I.faultIds.contains i then { I.cls i with ns := I.tns } else I.cls i }
+  | _ => I
+
+/-- the WSDL of an application: `add_method`'s fault step, then `build_interface_document` -/
+def build (F : Facts07) (e : Enum) (I : IState) (url : String) : Outcome Doc :=
+  gen F e (I.addMethodFaults F) url
+
 /-! ## Reference resolution (the specification side of "closed") -/
 
 def nsXsd : String := "http://www.w3.org/2001/XMLSchema"
@@ -769,10 +793,19 @@ def Doc.portTypeRefs (d : Doc) : List QN := d.bindings.map (·.type)
 
 def Doc.bindingRefs (d : Doc) : List QN := d.services.flatMap fun s => s.ports.map (·.binding)
 
-/-- every QName reference of the document resolves to a definition in the document or an XSD builtin -/
+/-- every `soap:header` of every binding operation -/
+def Doc.headerRefs (d : Doc) : List BHeader :=
+  d.bindings.flatMap fun b => b.ops.flatMap fun o => o.inHeaders ++ o.outHeaders
+
+/-- `soap:header/@part` names a part of the message `soap:header/@message` names -/
+def Doc.headerPartOk (d : Doc) (h : BHeader) : Bool :=
+  d.messages.any fun m => m.name == h.message.loc && m.parts.any fun p => p.name == h.part
+
+/-- every QName reference of the document resolves to a definition in the document or an XSD builtin,
+    and every header part reference to a part of its message -/
 def Doc.closed (d : Doc) : Bool :=
   d.typeRefs.all d.typeDefined && d.elemRefs.all d.elemDefined && d.msgRefs.all d.msgDefined &&
-  d.portTypeRefs.all d.portTypeDefined && d.bindingRefs.all d.bindingDefined
+  d.portTypeRefs.all d.portTypeDefined && d.bindingRefs.all d.bindingDefined && d.headerRefs.all d.headerPartOk
 
 /-- cross-namespace type references of a schema are covered by an `xs:import` -/
 def Doc.importsCover (d : Doc) : Bool :=
@@ -829,10 +862,23 @@ def IState.wfMeth (I : IState) (m : Meth) : Bool :=
                                     ((I.graph.contains i && (I.cls i).kind == .complex) || I.typeKeyOk i)) &&
   -- an empty header tuple is never produced by the decorator
   (m.inHeader != some []) && (m.outHeader != some []) &&
-  -- add_method puts every fault in the target namespace
-  m.faults.all (fun i => (I.cls i).ns == I.tns)
+  -- header classes are not renamed: their message part carries the type name
+  ((m.inHeader.getD []) ++ (m.outHeader.getD [])).all (fun i => (I.cls i).subName == none && (I.cls i).wsdlPart == none)
 
-def IState.wf (I : IState) : Bool :=
+/-- the (name, classes) pairs `add_messages_for_methods` hands to `_add_message_for_object`, in order -/
+def requestsOf (I : IState) (m : Meth) : List (String × List Nat) :=
+  [((I.cls m.inMsg).elemName, [m.inMsg]), ((I.cls m.outMsg).elemName, [m.outMsg])] ++
+  (match m.inHeader with | none => [] | some hs => [(headerMsgName I m hs "InHeaderMsg", hs)]) ++
+  (match m.outHeader with | none => [] | some hs => [(headerMsgName I m hs "OutHeaderMsg", hs)]) ++
+  m.faults.map (fun f => ((I.cls f).tn, [f]))
+
+def IState.requests (I : IState) : List (String × List Nat) := (allMethods I).flatMap (requestsOf I)
+
+/-- add_method puts every fault in the target namespace -/
+def IState.faultsTns (I : IState) : Bool := (allMethods I).all fun m => m.faults.all fun i => (I.cls i).ns == I.tns
+
+/-- the contract without the fault-namespace clause (which `addMethodFaults` establishes) -/
+def IState.wfCore (I : IState) : Bool :=
   (List.range I.classes.length).all I.wfCls && I.graph.all (fun i => i < I.classes.length) &&
   (allMethods I).all I.wfMeth &&
   -- the static prefix table is a bijection, contains the XSD namespace and not the tns
@@ -840,7 +886,11 @@ def IState.wf (I : IState) : Bool :=
   I.staticNs.contains ("xs", nsXsd) && !(I.staticNs.map (·.2)).contains I.tns && !(I.staticNs.map (·.1)).contains "tns" &&
   -- every namespace that gets a schema has an entry in `imports`
   I.graph.all (fun i => (I.cls i).kind == .builtin || (I.imports.map (·.1)).contains (I.cls i).ns) &&
-  (I.imports.map (·.1)).contains I.tns
+  (I.imports.map (·.1)).contains I.tns &&
+  -- two messages of the same name have the same parts (`_add_message_for_object` keeps the first)
+  I.requests.all (fun r1 => I.requests.all (fun r2 => r1.1 != r2.1 || partsOf I r1.2 == partsOf I r2.2))
+
+def IState.wf (I : IState) : Bool := I.wfCore && I.faultsTns
 
 /-- operation names are unique in the application, port types are declared consistently -/
 def IState.wfOps (I : IState) : Bool :=
